@@ -1,6 +1,7 @@
 package props
 
 import (
+	"math"
 	"fmt"
 	"math/rand"
 	"runtime"
@@ -20,15 +21,39 @@ import (
 // C07 — ChannelQueue / BufferedChannelQueue: bounded, FIFO, exactly-once delivery, nothing stranded.
 
 type c07Cfg struct {
-	cap, buf int
-	interval time.Duration
+	cap, buf  int
+	interval  time.Duration
+	viaSetter bool // buffer size configured through SetBufferSizeMaximum after construction
 }
 
 func (g c07Cfg) String() string {
 	return fmt.Sprintf("cap=%d buf=%d loader=%v", g.cap, g.buf, g.interval)
 }
 
+// bound is cap+buf, saturating (buffer sizes up to math.MaxInt stand for "no limit")
+func (g c07Cfg) bound() int {
+	if g.buf > 1<<50 {
+		return 1 << 50
+	}
+	return g.cap + g.buf
+}
+
+// mbuf is the buffer size handed to the sequential model (saturated like bound)
+func (g c07Cfg) mbuf() int {
+	if g.buf > 1<<50 {
+		return 1 << 50
+	}
+	return g.buf
+}
+
 func c07New(g c07Cfg) *fpgo.BufferedChannelQueue[int64] {
+	if g.viaSetter {
+		q := fpgo.NewBufferedChannelQueue[int64](g.cap, 1, 4)
+		q.SetBufferSizeMaximum(g.buf)
+		q.SetLoadFromPoolDuration(g.interval)
+		q.SetFreeNodeHookPoolIntervalDuration(g.interval)
+		return q
+	}
 	q := fpgo.NewBufferedChannelQueue[int64](g.cap, g.buf, 4)
 	q.SetLoadFromPoolDuration(g.interval)
 	q.SetFreeNodeHookPoolIntervalDuration(g.interval)
@@ -240,7 +265,7 @@ func c07Scenario(id string, g c07Cfg, producers, consumers, perProducer int, sho
 					}
 					if cnt := int64(q.Count()); cnt > maxCount.Load() {
 						maxCount.Store(cnt)
-						if cnt > int64(g.cap+g.buf) {
+						if cnt > int64(g.bound()) {
 							countViol.Store(cnt)
 						}
 					}
@@ -317,15 +342,15 @@ func c07Scenario(id string, g c07Cfg, producers, consumers, perProducer int, sho
 		for class, msg := range hist.ExactlyOnce(ops, drained, true) {
 			c.Violationf("history:"+class, map[string]any{"scenario": id, "config": g.String(), "history": hist.Describe(ops, 60)}, "%s: %s", g, msg)
 		}
-		if hb := c07HeldBound(ops); hb > g.cap+g.buf {
-			c.Violationf("bound:more-than-cap+buf-held", rep, "%s: at some instant %d accepted values had not been handed out yet (bound %d)", g, hb, g.cap+g.buf)
+		if hb := c07HeldBound(ops); hb > g.bound() {
+			c.Violationf("bound:more-than-cap+buf-held", rep, "%s: at some instant %d accepted values had not been handed out yet (bound %d)", g, hb, g.bound())
 		}
 		if cv := countViol.Load(); cv > 0 {
 			c.Violationf("bound:count-exceeds-cap+buf", rep, "%s: Count() returned %d", g, cv)
 		}
 		c.CountMax("max.count_observed", maxCount.Load())
 		if short && g.cap >= 1 {
-			switch hist.Linearizable(hist.Model(hist.RelaxedBuffered, g.cap, g.buf), ops, 10*time.Second) {
+			switch hist.Linearizable(hist.Model(hist.RelaxedBuffered, g.cap, g.mbuf()), ops, 10*time.Second) {
 			case "illegal":
 				c.Violationf("not-linearizable:RelaxedBuffered", map[string]any{"scenario": id, "config": g.String(), "history": hist.Describe(ops, 80)},
 					"%s: the history of %d operations has no linearization w.r.t. the relaxed bounded FIFO model", g, len(ops))
@@ -440,8 +465,8 @@ func c07BlockingTake(id string, g c07Cfg, producers, perProducer int, seed int64
 			for class, msg := range hist.ExactlyOnce(ops, consumed.Load() == int64(total), true) {
 				c.Violationf("history:"+class, map[string]any{"scenario": id, "config": g.String(), "history": hist.Describe(ops, 60)}, "%s: %s", g, msg)
 			}
-			if hb := c07HeldBound(ops); hb > g.cap+g.buf {
-				c.Violationf("bound:more-than-cap+buf-held", map[string]any{"scenario": id}, "%s: at some instant %d accepted values had not been handed out yet (bound %d)", g, hb, g.cap+g.buf)
+			if hb := c07HeldBound(ops); hb > g.bound() {
+				c.Violationf("bound:more-than-cap+buf-held", map[string]any{"scenario": id}, "%s: at some instant %d accepted values had not been handed out yet (bound %d)", g, hb, g.bound())
 			}
 			q.Close()
 		}
@@ -541,9 +566,13 @@ func c07Scenarios(c *core.Ctx, race bool) []core.Scenario {
 	for _, cp := range []int{0, 1, 2, 3} {
 		for _, bf := range []int{0, 1, 2, 5} {
 			for _, iv := range []time.Duration{50 * time.Microsecond, time.Millisecond} {
-				cfgs = append(cfgs, c07Cfg{cp, bf, iv})
+				cfgs = append(cfgs, c07Cfg{cp, bf, iv, false})
 			}
 		}
+	}
+	// "no limit" buffer sizes, through the constructor and through the setter
+	for i, bf := range []int{math.MaxInt, math.MaxInt32 + 1, 1 << 40, math.MaxInt32, 70000} {
+		cfgs = append(cfgs, c07Cfg{1, bf, 50 * time.Microsecond, i%2 == 1})
 	}
 	rng := c.Rng("c07")
 	nShortPer := c.Pick(40, 150)
@@ -598,7 +627,7 @@ func init() {
 		Meta: func(c *core.Ctx) core.Meta {
 			return core.Meta{
 				Level: "exploration",
-				Rule: "configurations (channelCapacity, bufferSizeMaximum, loader interval) in {0,1,2,3} x {0,1,2,5} x {50us,1ms} (quick: 20 of 32); per configuration short concurrent histories (1..3 producers, 1..3 consumers using Poll / TakeWithTimeout / GetChannel receive, <= 24 ops) checked by porcupine against the relaxed bounded FIFO model (FIFO strict, Offer ok only below cap+buf, Full legal only when the overflow can be at its maximum, Empty/Timeout always legal) and long runs (thousands of unique values, 1..4 x 1..4 goroutines, PRNG yields at loader/Offer/Poll hook points) checked for exactly-once / no invention / no loss after a drain / per-producer order / held <= cap+buf at every instant / Count() <= cap+buf / Count() = accepted-delivered at quiescence; " +
+				Rule: "configurations (channelCapacity, bufferSizeMaximum, loader interval) in {0,1,2,3} x {0,1,2,5} x {50us,1ms} (quick: 20 of 32) plus 'no limit' buffer sizes {MaxInt, MaxInt32+1, 2^40, MaxInt32, 70000} set through the constructor or SetBufferSizeMaximum; per configuration short concurrent histories (1..3 producers, 1..3 consumers using Poll / TakeWithTimeout / GetChannel receive, <= 24 ops) checked by porcupine against the relaxed bounded FIFO model (FIFO strict, Offer ok only below cap+buf, Full legal only when the overflow can be at its maximum, Empty/Timeout always legal) and long runs (thousands of unique values, 1..4 x 1..4 goroutines, PRNG yields at loader/Offer/Poll hook points) checked for exactly-once / no invention / no loss after a drain / per-producer order / held <= cap+buf at every instant / Count() <= cap+buf / Count() = accepted-delivered at quiescence; " +
 					"the drain uses only Poll/TakeWithTimeout after producers stopped: stranded = items held and >= 4 complete loader passes since the last successful removal, or no library goroutine able to make progress; back-pressure runs (retrying producers against ONE consumer that calls the blocking Take() exactly once per value: a Take left waiting for 3 s while accepted values are held is a lost wake-up); directed scenarios park the loader (in hand, after closed check, before sleep), Poll after its wake-up and Offer before its wake-up; plain ChannelQueue histories (Offer/Poll/PutWithTimeout/TakeWithTimeout) against BoundedFIFO; all repeated in the -race build. distinct_nontrivial = distinct scenarios + distinct hook-trace signatures",
 				Assumptions: []string{"Poll->Empty and TakeWithTimeout->Timeout are always legal for the buffered queue (statement: 'nothing immediately available')",
 					"nothing-stranded and linearizability are only claimed for channelCapacity >= 1; for capacity 0 exactly-once, order and conservation are checked",
